@@ -274,6 +274,12 @@ def o4(tier):
                 missing = [c for c in t.colnames() if c not in s.cols and c not in auto and c != 'provider_version']
                 if missing:
                     r.fail(f'O4/{fn}/column-not-written', f'{fn}: column(s) {missing} of {s.table} are never written (a saved record cannot carry them)')
+                if getattr(s, 'or_clause', None) == 'REPLACE':
+                    kids = S.cascade_children(tables, s.table)
+                    nuniq = len(t.uniques) + (1 if t.pk else 0)
+                    if kids or nuniq > 1:
+                        r.fail(f'O4/{fn}/replace-deletes-rows', f'{fn}: INSERT OR REPLACE INTO {s.table} resolves a conflict on ANY uniqueness constraint ({[t.pk] + t.uniques}) by deleting the '
+                               f'conflicting row' + (f', which cascades into {[k for k, _ in kids]}' if kids else '') + ': saving one record can silently destroy another one (e.g. a colliding nostr_group_id)')
                 if isinstance(s.conflict, tuple):
                     tgt, sets, nothing = s.conflict
                     if sorted(tgt) != sorted(t.pk):
